@@ -34,7 +34,7 @@ def cases(draw):
     c = {"how": draw(st.sampled_from(["ref", "fiber", "uncompressed", "yaml", "deepcopy"])),
          "kind": kind, "depth": depth, "inverse": draw(st.booleans()),
          "perm": list(draw(st.permutations(list(range(d))))),
-         "levels": draw(st.integers(1, d - 1 - depth)),
+         "levels": min(draw(st.sampled_from([1, 2, 3, 1, 2])), d - 1 - depth),
          "style": draw(st.sampled_from(["tuple", "pair", "linear"])),
          "mstyle": draw(st.sampled_from(["absolute", "relative"])),
          "mfn": draw(st.sampled_from(["sum", "sum", "max", "first"])),
@@ -44,11 +44,14 @@ def cases(draw):
     shape = [draw(st.integers(1, 4)) for _ in range(d)]
     if draw(st.booleans()):
         shape = [max(2, x) for x in shape]
-    which = draw(st.integers(0, 3))
+    which = draw(st.integers(0, 5))
     if which == 0:
         c["spec"] = draw(gen.tree_specs(shape=shape, defaults=(0, 0, 0, 2), max_elems=3, auth="any"))
     elif which == 1:
         c["spec"] = draw(gen.content_specs(shape, defaults=(0, 0, 0, 2), max_points=8, auth="any"))
+    elif which == 2:
+        c["spec"] = draw(gen.content_specs(shape, defaults=(2, 0), max_points=6, auth="any", min_points=1,
+                                           p_noise=0.9))
     else:
         c["spec"] = draw(gen.content_specs(shape, defaults=(0, 0, 0, 2), max_points=10, auth="any", min_points=3,
                                            p_noise=0.9))
@@ -192,7 +195,7 @@ def check(case, rec):
         rec.cls("multi-level", levels > 1)
         tdepth = depth
     elif kind == "merge":
-        levels, style, fn = 1, case["mstyle"], case["mfn"]
+        levels, style, fn = case["levels"], case["mstyle"], case["mfn"]
         r = t.mergeRanks(depth=depth, levels=levels, coord_style=style, merge_fn=MFN[fn])
         operand_intact("mergeRanks")
         verify(r, "mergeRanks result")
